@@ -1044,3 +1044,47 @@ package geometry
 //@   requires series != nil && addr == 5 && RWFtop(data, series.points, series.closed)
 //@   iter iter(item) dom 0 <= item && item < bsNseg(series) ; match rectsMeet(segRectOf(series.points, item), rect) ; args bsSeg(series, item), item
 //@   ensures result == !stopped
+
+// ---------------------------------------------------------------- C04 / C05: index builders -- thin contracts (full functional correctness of the
+// pointer-tree builders is outside the deductive subset; the bounded index suite of govrac stands in for it)
+
+//@ func rRect.expand
+//@   props C04 C05 C01
+//@   arith order
+//@   requires r != nil && b != nil
+//@   modifies rRect.min, rRect.max
+//@   ensures Min: forall i int :: 0 <= i && i < 2 ==> r.min[i] == min(old(r.min)[i], b.min[i]) && (b != r ==> b.min[i] == old(b.min)[i])
+//@   ensures Max: forall i int :: 0 <= i && i < 2 ==> r.max[i] == max(old(r.max)[i], b.max[i]) && (b != r ==> b.max[i] == old(b.max)[i])
+//@   ensures Frame: forall o *rRect :: o != r ==> (o.min == old(o.min) && o.max == old(o.max))
+//@   loop 0 invariant 0 <= i && i <= 2
+//@   loop 0 invariant forall k int :: 0 <= k && k < 2 ==> (r.min[k] == ite(k < i, min(old(r.min)[k], old(b.min)[k]), old(r.min)[k]) && r.max[k] == ite(k < i, max(old(r.max)[k], old(b.max)[k]), old(r.max)[k]))
+//@   loop 0 invariant forall o *rRect :: o != r ==> (o.min == old(o.min) && o.max == old(o.max))
+//@   loop 0 decreases 2 - i
+
+//@ func rRect.contains
+//@   props C04 C05 C01
+//@   arith order
+//@   requires r != nil && b != nil
+//@   ensures result == (r.min[0] <= b.min[0] && b.max[0] <= r.max[0] && r.min[1] <= b.min[1] && b.max[1] <= r.max[1])
+//@   loop 0 invariant 0 <= i && i <= 2 && (forall k int :: 0 <= k && k < i ==> (r.min[k] <= b.min[k] && b.max[k] <= r.max[k]))
+//@   loop 0 decreases 2 - i
+
+//@ func rRect.intersects
+//@   props C04 C05 C01
+//@   arith order
+//@   requires r != nil && b != nil
+//@   ensures result == !(b.min[0] > r.max[0] || b.max[0] < r.min[0] || b.min[1] > r.max[1] || b.max[1] < r.min[1])
+//@   loop 0 invariant 0 <= i && i <= 2 && (forall k int :: 0 <= k && k < i ==> !(b.min[k] > r.max[k] || b.max[k] < r.min[k]))
+//@   loop 0 decreases 2 - i
+
+// qNode.insert: the recursion is bounded by the depth limit (lexicographic measure: remaining depth, then "not yet split").
+// Only the recursion-measure obligations and the depth precondition are generated; the loop over n.items and the
+// safety of SegmentAt(item) need a tree-wide heap invariant that is outside the subset (bounded by govrac index).
+//@ func qNode.insert
+//@   props C05 C04 C01
+//@   arith order
+//@   only dec.rec *.Depth
+//@   requires NonNil: n != nil && series != nil
+//@   requires Depth: 0 <= depth && depth <= 16
+//@   modifies qNode.items, qNode.split, qNode.quads
+//@   decreases 2*(16 - depth) + ite(n.split, 0, 1)
